@@ -539,11 +539,12 @@ class Session:
                 fn, a = tgt.update_all, ()
             sel_q = q_ast if kind == "update" else None
             sel_m = m if via_h else (mfilter if kind == "update" else None)
+            in_place = self.cfg["storage"] == "mem"
             if out.exp_exc is None:
-                out.exp = mdl.copy().update(sel_q, args, sel_m)
+                out.exp = mdl.copy().update(sel_q, args, sel_m, in_place)
             out.real = self._call(fn, *a, **kw)
             if out.exp_exc is None:
-                mdl.update(sel_q, args, sel_m)
+                mdl.update(sel_q, args, sel_m, in_place)
         elif kind == "remove":
             sel_m = m if via_h else mfilter
             out.exp = mdl.copy().remove(q_ast, sel_m)
